@@ -31,10 +31,10 @@ fn int_sums_2d<const R: usize, const C: usize, const RC: usize>(ld: u8, lw: u8, 
         wsum += w[k];
         k += 1;
     }
+    kani::cover!(pd[0] == 127 && pw[0] == 127 && pw[1] == 1, "W: large product");
     if part == 0 {
         assert!(SummaryStatisticsExt::mean(&a) == Ok(s / (RC as i32)), "mean == exact sum / n (the type's own division)");
         assert!(a.weighted_sum(&wt) == Ok(ws), "weighted_sum pairs data and weights by logical index");
-        kani::cover!(pd[0] == 127 && pw[0] == 127 && pw[1] == 1, "W: large product");
         return;
     }
     // per-axis forms with 1-D weights taken from the first column / first row of the weight payloads
@@ -88,7 +88,6 @@ fn int_sums_2d<const R: usize, const C: usize, const RC: usize>(ld: u8, lw: u8, 
         assert!(r1[i] == o, "weighted_sum_axis(Axis(1))[i] == weighted sum of row i");
         i += 1;
     }
-    kani::cover!(pd[0] == 127 && pw[0] == 127 && pw[1] == 1, "W: large product (axis part)");
 }
 
 /// weighted_mean / weighted_mean_axis divide by the SUM OF THE WEIGHTS (the type's own integer
